@@ -159,7 +159,22 @@ def expand(pool, key, calls, results):
 def run(tier):
     chk = Check(PROP, tier)
     write_conc_input(chk)
-    chk.model("MC_Conc", cfg="MC_Conc.cfg" if tier == "thorough" else "MC_Conc_quick.cfg", timeout=3000)
+    # the footprints are extracted from the current tree (B3), so a violated invariant of this
+    # model is a finding about the code, not about the design
+    r = core.tlc_mc(chk.rd, "MC_Conc", cfg="MC_Conc.cfg" if tier == "thorough" else "MC_Conc_quick.cfg", timeout=3000,
+                    allow_violation=True)
+    chk.states += r["distinct"]
+    chk.transitions += r["generated"]
+    chk.models.append(dict(module="MC_Conc", generated=r["generated"], distinct=r["distinct"], wall_s=round(r["wall"], 1)))
+    if not r["ok"]:
+        import re
+        m = re.search(r"Invariant (\w+) is violated", r["out"])
+        if not m:
+            raise core.Infra("MC_Conc failed:\n" + core._tail(r["out"]))
+        chk.add_failure("conc.footprint_model.%s" % m.group(1),
+                        "interleaving model over the extracted footprints violates %s" % m.group(1),
+                        dict(commands=[], footprints=chk.extra.get("footprints"), invariant=m.group(1),
+                             kind="footprint-model"))
     b = batch(chk, tier, False)
     cmds = [dict(sc=1, op="scenario", cls="batch"), dict(sc=1, op="conc.batch", **b)]
     race_reports = 0
